@@ -28,8 +28,7 @@ Record case := {
   c_raw : option (bytes * (list (bytes * Z) * bool) * (list (bytes * N) * bool))   (* arbitrary body through both parsers *)
 }.
 
-Definition from_multiset (ms : list (bytes * N)) : tnode :=
-  fold_left (fun t kv => t_insert (fst kv) (snd kv) t) ms t_empty.
+Definition from_multiset := profile_of.
 
 Definition default_meta : meta := (ascii "unknown", 100, ascii "samples", ascii "sum").
 
@@ -59,15 +58,6 @@ Definition lines_res_eqb (a b : list (bytes * N) * bool) : bool :=
 Definition fmt_eqb (a b : wire_format) : bool :=
   match a, b with FTree, FTree | FTrie, FTrie | FLines, FLines | FGroups, FGroups => true | _, _ => false end.
 
-Definition tree_of_groups (r : list (bytes * Z) * bool) : option tnode :=
-  if snd r then Some (fold_left (fun t kv => t_insert (fst kv) (to_uint64 (snd kv)) t) (fst r) t_empty) else None.
-Definition tree_of_lines (r : list (bytes * N) * bool) : option tnode :=
-  if snd r then Some (from_multiset (kv_sort (fst r))) else None.
-Definition tree_of_trie (body : bytes) : option tnode :=
-  match tt_deserialize body with
-  | Some t => Some (from_multiset (tt_iterate t))
-  | None => None
-  end.
 Definition otree_eqb (a b : option tnode) : bool :=
   match a, b with Some x, Some y => t_eqb x y | None, None => true | _, _ => false end.
 
@@ -118,20 +108,20 @@ Definition check_case (c : case) : verdict :=
     | Some s, Some g =>
         [ corr (groups_res_eqb (parse_groups (sn_body s)) g) "parse_groups model differs from convert.ParseGroups";
           corr (negb (c_text_ok c) || list_eqb N.eqb (render_groups (c_ms c)) (sn_body s)) "render_groups model differs from the body sent";
-          corr (negb (N.eqb (st_status (sn_stored s)) 200) || otree_eqb (tree_of_groups (parse_groups (sn_body s))) (st_tree (sn_stored s)))
+          corr (negb (N.eqb (st_status (sn_stored s)) 200) || otree_eqb (tree_via_groups (sn_body s)) (st_tree (sn_stored s)))
                "tree built from the model's parse_groups differs from the stored tree" ]
     | _, _ => []
     end ++
     match c_lines c, c_go_lines c with
     | Some s, Some g =>
         [ corr (lines_res_eqb (parse_lines (sn_body s)) g) "parse_lines model differs from convert.ParseIndividualLines";
-          corr (negb (N.eqb (st_status (sn_stored s)) 200) || otree_eqb (tree_of_lines (parse_lines (sn_body s))) (st_tree (sn_stored s)))
+          corr (negb (N.eqb (st_status (sn_stored s)) 200) || otree_eqb (tree_via_lines (sn_body s)) (st_tree (sn_stored s)))
                "tree built from the model's parse_lines differs from the stored tree" ]
     | _, _ => []
     end ++
     match c_trie c with
     | Some s =>
-        [ corr (negb (N.eqb (st_status (sn_stored s)) 200) || otree_eqb (tree_of_trie (sn_body s)) (st_tree (sn_stored s)))
+        [ corr (negb (N.eqb (st_status (sn_stored s)) 200) || otree_eqb (tree_via_trie (sn_body s)) (st_tree (sn_stored s)))
                "tree built from the model's tt_deserialize/tt_iterate differs from the stored tree" ]
     | None => []
     end ++
